@@ -161,5 +161,6 @@ Definition zero_sig : sig KI := szero.
 Definition jI : KI := cii.
 Definition someq (x : KI) : option KI := Some x.
 
-Definition failing (l : list (nat * nat)) : list nat :=
-  map (fun p => (fst p * 256 + snd p)%nat) (filter (fun p => negb (Nat.eqb (snd p) 0)) l).
+(* the cases whose verdict code is not 0, as (index, code) pairs *)
+Definition failing (l : list (nat * nat)) : list (nat * nat) :=
+  filter (fun p => negb (Nat.eqb (snd p) 0)) l.
